@@ -16,6 +16,18 @@ CHECKS.append({
     "note": "Trusted: Lean kernel + standard axioms; AEAD as an abstract structure (laws as hypotheses, never axioms); ChaCha20-Poly1305 (cryptography pkg), protobuf serialisation, api.proto text parser for ground-truth ids.",
     "technique": "Lean 4 proof (round-trip of writer against an independent strict decoder, induction over batches/sessions) + model/implementation correspondence",
 })
+CHECKS.append({
+    "property_id": "C03",
+    "text": "Lean 4 theorems c03_interop (for every AEAD instance, acceptable announced name, handshake payload the oracle accepts, message list and EVERY chunking of the conformant responder stream: events are exactly one readiness signal then exactly the messages in order; final nonce = message count), c03_no_early (for ANY byte stream no delivery precedes readiness), c03_name (accept iff no expectation or equal). Built on the generic segmentation lemmas drain_append / run_eq_onepass. Tie: the real APINoiseFrameHelper against an independent responder (stock noiseprotocol backend + cryptography ChaCha20Poly1305, spec nonce layout), every single cut / boundary pairs / byte-by-byte / random cuts; the Lean model runs the symbolic twin of the same stream with the same cuts.",
+    "note": "Trusted: Lean kernel + standard axioms; the Noise handshake mathematics (seen through the oracle hs); symbolic-twin construction in harness/noise_bench.py; SimTransport semantics.",
+    "technique": "Lean 4 proof (segmentation independence + invariant induction over all event histories) + model/implementation correspondence against an independent Noise responder",
+})
+CHECKS.append({
+    "property_id": "C04",
+    "text": "Lean 4 theorems c04_prefix (for every inbound cipher that is Genuine for the device's plaintext list S and EVERY byte stream in every chunking, the delivered packets are exactly the messages of the first k plaintexts: no forged, altered, replayed or reordered delivery), c04_terminal / c04_closed_frames (nothing after the first failure), the decision table c04_class_* (each deviation -> its specific error class, closed), c04_ready_same_error, c04_psk, c04_plain_wrong_preamble. Tie: fault catalogue (flip/truncate/duplicate/swap/drop/re-key/forge per frame and position, handshake-phase deviations, framing mismatches, transport events, key strings) on the real helper vs the model on the symbolic twin.",
+    "note": "AEAD integrity is an explicit hypothesis (Genuine), satisfiable (lookupDec_genuine) and never an axiom; base64 leniency is binascii's (oracle input of checkPsk).",
+    "technique": "Lean 4 proof (history invariant for all byte streams under an AEAD-genuineness hypothesis; case analysis of the handlers) + fault-catalogue correspondence",
+})
 
 _claimed = {c["property_id"] for c in CHECKS}
 NOT_APPLICABLE = [
